@@ -33,12 +33,18 @@ Count(s, x) == Cardinality({i \in 1..Len(s) : s[i] = x})
 (*         rcpt : [Given -> {"ok","perm"}],  RCPT reply per address               *)
 (*         data : [Doms -> {"ok","temp","perm"}]  SMTP: DATA refused 451 / final  *)
 (*                                           dot refused 554, per connection      *)
-(*         st   : [Given -> {"ok","temp","perm"}]] LMTP: reply per recipient      *)
-(* the result the next hop gave for an accepted recipient r *)
-Truth(kind, plan, r) ==
+(*         st   : [Given -> {"ok","temp","perm"}], LMTP: reply per recipient      *)
+(*         drop : 0..3]  LMTP: the next hop answers for the first `drop` accepted *)
+(*                       recipients after the final dot, then the connection      *)
+(*                       breaks (drop >= number of accepted recipients: no break) *)
+(* the results the next hop gave for the accepted recipient r (one per time it    *)
+(* was accepted; "lost" = no answer arrived, any failure is a truthful report)    *)
+TruthSet(kind, plan, acc, r) ==
   IF kind = "lmtp"
-  THEN IF plan.data["D1"] # "ok" THEN plan.data["D1"] ELSE plan.st[r]
-  ELSE plan.data[Dom(r)]
+  THEN IF plan.data["D1"] # "ok" THEN {plan.data["D1"]}
+       ELSE {IF i <= plan.drop THEN plan.st[r] ELSE "lost" : i \in {j \in 1..Len(acc) : acc[j] = r}}
+  ELSE {plan.data[Dom(r)]}
+Truthful(v, t) == IF t = "lost" THEN v # "ok" ELSE v = t
 
 ObsInit == [acc |-> <<>>, plan |-> <<>>, n |-> 0, viol |-> {}]
 
@@ -57,7 +63,8 @@ ObsStatuses(o, kind, sts) ==
       o1 == V(o,  \A i \in 1..Len(sts) : sts[i].k \in accS, "StatusForOtherAddress")
       o2 == V(o1, \A r \in accS : Count(keys, r) >= 1, "MissingStatus")
       o3 == V(o2, \A r \in accS : Count(keys, r) <= Count(o.acc, r), "DuplicateStatus")
-      o4 == V(o3, \A i \in 1..Len(sts) : sts[i].k \in accS => sts[i].v = Truth(kind, o.plan, sts[i].k),
+      o4 == V(o3, \A i \in 1..Len(sts) : sts[i].k \in accS =>
+                     \E t \in TruthSet(kind, o.plan, o.acc, sts[i].k) : Truthful(sts[i].v, t),
               "ResultOfAnotherRecipient")
   IN o4
 =============================================================================
